@@ -2,6 +2,7 @@
 //! properties: C16
 //! note: router fee arithmetic: compute_fees and PaymentPath::update_value_and_recompute_fees, paths of any length
 //! trusted: CandidateRouteHop is a stub {min, f} whose htlc_minimum_msat()/fees() accessors are external_body pure functions; NodeFeatures opaque; lifetimes dropped (R5)
+//! assume: the running sum of a path's fees fits u64 (get_total_fee_paid_msat adds unchecked; fees are bounded by the amounts, which are bounded by the supply)
 //! assume: fits(path, value): the ideal per-hop amounts and fee products fit 60 bits (established by callers via compute_max_final_value_contribution; LDK's unreachable!() relies on it); path_penalty_msat <= 2^60; at most 100 hops
 //! trusted: assume_specification for core::cmp::max / core::cmp::min (std definitions): present in every unit so that a change that introduces them is verified instead of being rejected by the tool
 use vstd::prelude::*;
@@ -69,6 +70,10 @@ pub open spec fn carried(hops: Seq<(PathBuildingHop, NodeFeatures)>, j: int) -> 
     if j >= hops.len() || j < 0 { 0 } else { hops[j].0.fee_msat as int + carried(hops, j + 1) }
 }
 
+// sum of fee_msat over hops[0..upto) leaving out the last hop of the path (whose fee_msat is the value delivered)
+pub open spec fn fees_before_last(hops: Seq<(PathBuildingHop, NodeFeatures)>, upto: int) -> int decreases upto {
+    if upto <= 0 { 0 } else { fees_before_last(hops, upto - 1) + (if upto - 1 != hops.len() - 1 { hops[upto - 1].0.fee_msat as int } else { 0 }) }
+}
 pub open spec fn same_candidates(a: Seq<(PathBuildingHop, NodeFeatures)>, b: Seq<(PathBuildingHop, NodeFeatures)>) -> bool {
     a.len() == b.len() && forall|k: int| 0 <= k < a.len() ==> a[k].0.candidate == b[k].0.candidate
 }
@@ -120,6 +125,60 @@ impl PaymentPath {
     self.hops.len() >= 1
 //@ensures A
     r == self.hops[self.hops.len() - 1].0.fee_msat
+//@end
+//@extract lightning/src/routing/router.rs :: impl PaymentPath :: fn get_total_fee_paid_msat
+//@ret r
+//@requires
+    forall|k: int| 0 <= k <= self.hops@.len() ==> #[trigger] fees_before_last(self.hops@, k) <= u64::MAX,
+//@ensures P C16 the-fees-a-path-pays-are-what-every-hop-but-the-last-carries-as-its-fee
+    r as int == fees_before_last(self.hops@, self.hops@.len() as int),
+//@rw R6
+    for (i, (hop, _)) in self.hops.iter().enumerate() { $body:any }
+//@with
+    let mut i: usize = 0;
+    while i < self.hops.len()
+        invariant i <= self.hops@.len(), result as int == fees_before_last(self.hops@, i as int),
+            forall|k: int| 0 <= k <= self.hops@.len() ==> #[trigger] fees_before_last(self.hops@, k) <= u64::MAX,
+        decreases self.hops@.len() - i
+    {
+        let hop = &self.hops[i].0;
+        proof { assert(fees_before_last(self.hops@, i as int + 1) <= u64::MAX); }
+        $body
+        i = i + 1;
+    }
+//@mutant last_hops_value_counted_as_a_fee
+    if i != self.hops.len() - 1 {
+//@with
+    if i != self.hops.len() {
+//@end
+//@extract lightning/src/routing/router.rs :: impl PaymentPath :: fn get_path_penalty_msat
+//@rw R9
+    .map(|h| h.0.path_penalty_msat)
+//@with
+    .map(|h: &(PathBuildingHop, NodeFeatures)| -> (o: u64) ensures o == h.0.path_penalty_msat { h.0.path_penalty_msat })
+//@ret r
+//@ensures A
+    r == (if self.hops@.len() > 0 { self.hops@[0].0.path_penalty_msat } else { u64::MAX }),
+//@end
+//@extract lightning/src/routing/router.rs :: impl PaymentPath :: fn get_cost_msat
+//@ret r
+//@requires
+    forall|k: int| 0 <= k <= self.hops@.len() ==> #[trigger] fees_before_last(self.hops@, k) <= u64::MAX,
+//@ensures P C16 a-paths-cost-is-its-fees-plus-the-scorers-penalty-saturating
+    ({ let c = fees_before_last(self.hops@, self.hops@.len() as int) + (if self.hops@.len() > 0 { self.hops@[0].0.path_penalty_msat as int } else { u64::MAX as int });
+       r as int == (if c > u64::MAX { u64::MAX as int } else { c }) }),
+//@end
+//@extract lightning/src/routing/router.rs :: impl PaymentPath :: fn get_cost_per_msat
+//@ret r
+//@requires
+    self.hops@.len() >= 1, self.hops@[self.hops@.len() - 1].0.fee_msat > 0,
+    forall|k: int| 0 <= k <= self.hops@.len() ==> #[trigger] fees_before_last(self.hops@, k) <= u64::MAX,
+//@ensures P C16 paths-are-ranked-by-cost-per-msat-delivered-and-a-path-of-unbounded-cost-ranks-last
+    ({ let c = fees_before_last(self.hops@, self.hops@.len() as int) + self.hops@[0].0.path_penalty_msat as int;
+       let v = self.hops@[self.hops@.len() - 1].0.fee_msat as int;
+       r as int == (if c >= u64::MAX { u64::MAX as int } else { (c * 0x1_0000_0000_0000_0000) / v }) }),
+//@at before `if fee_cost == u64::MAX`
+    proof { assert(((fee_cost as u128) << 64u128) == (fee_cost as u128) * 0x1_0000_0000_0000_0000u128) by (bit_vector); }
 //@end
 //@extract lightning/src/routing/router.rs :: impl PaymentPath :: fn update_value_and_recompute_fees
 //@ret ret
